@@ -146,7 +146,7 @@ static Manifold build(int prog, std::mt19937& rng) {
   Manifold cube = Manifold::Cube(vec3(1.0), true);
   Manifold sph = Manifold::Sphere(0.7, 12);
   Manifold tet = Manifold::Tetrahedron();
-  switch (prog % 21) {
+  switch (prog % 26) {
     case 0: return cube + sph.Translate({r(), r() * 0.5, 0});                         // two runs
     case 1: return cube - sph.Translate({r(), 0.2, 0.1});                             // back-side run
     case 2: return (cube ^ sph.Translate({r() * 0.5, 0, 0})) + tet.Scale(vec3(0.3)).Translate({2, 0, 0});
@@ -165,6 +165,12 @@ static Manifold build(int prog, std::mt19937& rng) {
       Manifold a = Manifold::Sphere(0.25, 8).AsOriginal();
       return cube + a.Scale(vec3(0.5 + 0.5 * r())) + a.Translate({2, 0, 0}) + tet.Scale(vec3(0.1));
     }
+    // NO operand is ever transformed: every run transform is exactly the identity
+    case 21: return Manifold::Cube(vec3(1.0)) - Manifold::Sphere(0.7, 12);                 // back-side run
+    case 22: return Manifold::Sphere(0.7, 12) - Manifold::Cube(vec3(1.0));
+    case 23: return Manifold::Cube(vec3(2.0)) - (Manifold::Cube(vec3(1.0)) - Manifold::Sphere(0.7, 12));  // nested: back of back
+    case 24: return Manifold::Cube(vec3(1.0)).CalculateNormals(0) - Manifold::Sphere(0.7, 12).CalculateNormals(0);  // normals-flagged runs
+    case 25: return (Manifold::Cube(vec3(1.0)) ^ Manifold::Sphere(0.9, 12)) - Manifold::Sphere(0.5, 10).CalculateNormals(0);
     case 15: return (cube + sph.Translate({r(), r(), r()})).SmoothOut(50 + 20 * r());   // sharp + smooth: non-finite tangents
     case 5: return (cube - tet.Scale(vec3(0.8)).Translate({r() * 0.3, 0, 0})).SmoothOut();
     case 6: return cube.CalculateNormals(0) + sph.CalculateNormals(0).Translate({r(), 0.1, 0});  // property seams + normals
@@ -191,11 +197,15 @@ int main() {
     // so that the importer takes its large-mesh code paths (CreateHalfedges switches strategy at 2^18 vertices)
     size_t padTo = 0;
     is >> padTo;
+    // optional: hand-edit the export before the re-import.  1 = drop runTransform (the field is optional: absent
+    // means identity) when every run transform is the identity anyway; the run flags must keep their meaning.
+    int edit = 0;
+    is >> edit;
     std::mt19937 rng(seed);
     Manifold m = build(prog, rng);
     MeshGL64 g1 = m.GetMeshGL64();
     std::ostringstream os;
-    os << "C " << id << " prog=" << prog % 21 << " st=" << (int)m.Status() << " runs=" << g1.runOriginalID.size()
+    os << "C " << id << " prog=" << prog % 26 << " st=" << (int)m.Status() << " runs=" << g1.runOriginalID.size()
        << " tris=" << g1.NumTri() << " props=" << g1.numProp - 3 << " tangents=" << (g1.halfedgeTangent.empty() ? 0 : 1)
        << " merges=" << g1.mergeFromVert.size();
     {
@@ -220,6 +230,14 @@ int main() {
         gin.vertProperties.push_back(7.0);
         for (size_t c = 3; c < gin.numProp; ++c) gin.vertProperties.push_back(0.0);
       }
+    }
+    if (edit == 1) {
+      bool allIdentity = true;
+      for (size_t r = 0; 12 * (r + 1) <= gin.runTransform.size(); ++r)
+        for (int k = 0; k < 12; ++k)
+          if (gin.runTransform[12 * r + k] != ((k == 0 || k == 4 || k == 8) ? 1.0 : 0.0)) allIdentity = false;
+      if (allIdentity) gin.runTransform.clear();
+      os << " dropped_rt=" << (allIdentity ? 1 : 0);
     }
     os << " padded=" << gin.NumVert();
     Manifold m2(gin);
